@@ -164,6 +164,81 @@ def integrals(src):
     return "\n".join(out) + "\n", spans, trs
 
 
+def _ctor_signature(cls_node, what):
+    fn = None
+    for st in cls_node.body:
+        if isinstance(st, ast.FunctionDef) and st.name == "__init__":
+            fn = st
+    if fn is None:
+        raise TranslateError("%s.__init__ not found" % what)
+    a = fn.args
+    if a.vararg or a.kwarg or a.kwonlyargs or a.posonlyargs:
+        raise TranslateError("%s.__init__: unsupported parameter kinds" % what)
+    names = [x.arg for x in a.args]
+    if not names or names[0] != "self":
+        raise TranslateError("%s.__init__: no self" % what)
+    return fn, names[1:]
+
+
+def constructors(src_integrals, src_base):
+    """AST fact: how JbIntegral/JfIntegral.__init__ pass their parameters on to
+    InterpolatableFunction.__init__.  For every parameter j of the base constructor the Coq list
+    `<Tag>Forward` holds Some i when the argument is exactly the i-th parameter of the subclass
+    constructor (by position or by keyword), None when it is omitted or anything else."""
+    base = None
+    for n in ast.parse(src_base).body:
+        if isinstance(n, ast.ClassDef) and n.name == "InterpolatableFunction":
+            base = n
+    if base is None:
+        raise TranslateError("InterpolatableFunction not found")
+    _, bparams = _ctor_signature(base, "InterpolatableFunction")
+
+    def sl(l):
+        return "[%s]" % "; ".join('"%s"' % x for x in l)
+    out = ["From Coq Require Import List String.", "Import ListNotations.",
+           "Local Open Scope string_scope.",
+           "(* generated from interpolatableFunction.py and PotentialTools/integrals.py *)",
+           "Definition BaseCtorParams : list string := %s." % sl(bparams)]
+    tree = ast.parse(src_integrals)
+    for cls, tag in (("JbIntegral", "Jb"), ("JfIntegral", "Jf")):
+        node = None
+        for n in tree.body:
+            if isinstance(n, ast.ClassDef) and n.name == cls:
+                node = n
+        if node is None:
+            raise TranslateError("class %s not found" % cls)
+        if [ast.unparse(b) for b in node.bases] != ["InterpolatableFunction"]:
+            raise TranslateError("%s no longer derives from InterpolatableFunction" % cls)
+        fn, cparams = _ctor_signature(node, cls)
+        body = [st for st in fn.body if not (isinstance(st, ast.Expr) and
+                                             isinstance(st.value, ast.Constant))]
+        if len(body) != 1 or not (isinstance(body[0], ast.Expr) and
+                                  isinstance(body[0].value, ast.Call) and
+                                  ast.unparse(body[0].value.func) == "super().__init__"):
+            raise TranslateError("%s.__init__ is not a single super().__init__(...) call" % cls)
+        call = body[0].value
+        given = {}
+        for j, a in enumerate(call.args):
+            if isinstance(a, ast.Starred) or j >= len(bparams):
+                raise TranslateError("%s.__init__: positional arguments" % cls)
+            given[bparams[j]] = a
+        for kw in call.keywords:
+            if kw.arg is None or kw.arg not in bparams or kw.arg in given:
+                raise TranslateError("%s.__init__: keyword %r" % (cls, kw.arg))
+            given[kw.arg] = kw.value
+        fw = []
+        for bp in bparams:
+            a = given.get(bp)
+            if isinstance(a, ast.Name) and a.id in cparams:
+                fw.append("Some %d" % cparams.index(a.id))
+            else:
+                fw.append("None")
+        out.append("Definition %sCtorParams : list string := %s." % (tag, sl(cparams)))
+        out.append("Definition %sForward : list (option nat) := [%s]%%list." % (
+            tag, "; ".join(fw)))
+    return "\n".join(out) + "\n"
+
+
 # --------------------------------------------------------------------------------------------
 # 2. effectivePotentialNoResum.py: potentialOneLoopThermal
 
